@@ -61,11 +61,14 @@ def chunks(p):
         'CREATE TABLE %s (Id UNIQUE_ID, %s STRING);\n' % (A, p['Name']) +
         'CREATE TABLE %s (Id UNIQUE_ID, A_Id UNIQUE_ID, %s INTEGER);\n' % (B, p['N']) +
         'CREATE ROP REF_ID R1 FROM MC %s (A_Id) TO 1C %s (Id);\n' % (B, A) +
-        'CREATE UNIQUE INDEX I1 ON %s (Id);\n' % A,
+        'CREATE UNIQUE INDEX I1 ON %s (Id);\n' % A +
+        # a class whose rows may arrive (and be built with guessed types) before this declaration
+        'CREATE TABLE %sx (F STRING, G INTEGER);\n' % p['Z'],
 
         'INSERT INTO %s VALUES (%s, %s);\n' % (A, uid(0x101), q(p['s'][0])) +
         'INSERT INTO %s VALUES (%s, %s, 1);\n' % (B, uid(0x201), uid(0x101)) +
-        'INSERT INTO %s VALUES (%s, %s, 2);\n' % (B, uid(0x202), uid(0)),
+        'INSERT INTO %s VALUES (%s, %s, 2);\n' % (B, uid(0x202), uid(0)) +
+        'INSERT INTO %sx VALUES (1, 3);\n' % p['Z'],
 
         'INSERT INTO %s VALUES (%s, %s);\n' % (A, uid(0x102), q(p['s'][1])) +
         'INSERT INTO %s VALUES (%s, %s, 3);\n' % (B, uid(0x203), uid(0x102)) +
@@ -290,6 +293,8 @@ class LoaderModel(explorer.Model):
                     ops.append(['mut', k, 'insert_attr', B, 0, p['Pre'], 'STRING'])
                 if mcb.storage:
                     ops.append(['mut', k, 'delete', B, 0])
+                if 'A_Id' in names:
+                    ops.append(['mut', k, 'delete_attr', B, 'A_Id'])      # an attribute that is an association key
             if mca is not None and mcb is not None and r.associations and mca.storage and mcb.storage:
                 ops.append(['mut', k, 'relate', B, len(mcb.storage) - 1, A, 0])
                 ops.append(['mut', k, 'unrelate', B, 0, A, 0])
